@@ -94,6 +94,19 @@ func c16GenTeardown(r *sim.Rand, tier string, cs *sim.Case) {
 		}
 	}
 	pick := func() string { return c16tPaths[r.Weighted(4, 4, 2, 2, 2, 2, 3)] }
+	if r.P(8) {
+		// 16-bit session ids are reused once the counter has wrapped: the first session takes the
+		// first id, ~65 000 set-ups and tear-downs later the counter is back at it, and a new client
+		// connects at the very moment that session is ended by two paths at once
+		cs.Knobs["idwrap"] = 1
+		cs.Ops = nil
+		for _, st := range stages {
+			cs.Ops = append(cs.Ops, sim.Op{K: st, A: []int64{0}})
+		}
+		cs.Ops = append(cs.Ops, sim.Op{K: "end2", A: []int64{0, int64(r.Range(1, 18))}, S: []string{"by-mac", "padt"}}) // (by MAC: a command addressed by numeric id would legitimately hit whoever holds the id now)
+		cs.Knobs["sessions"] = 1
+		return
+	}
 	for s := 0; s < n; s++ {
 		if r.P(15) {
 			continue
@@ -427,6 +440,21 @@ func c16RunTeardown(c *sim.Ctx) {
 			byKey[x.key] = x
 			s.SetState(pppoe.StateLCPNegotiation)
 			c.OpsDone++
+			if cs.Knob("idwrap", 0) == 1 && si == 0 {
+				// other clients come and go until the id counter is back at this session's id
+				quantum := c.S.SkipMax
+				c.S.SkipMax = 4096
+				spin := net.HardwareAddr{0x02, 0x20, 0xff, 0, 0, 1}
+				for k := 0; k < 65534; k++ {
+					t, err := sm.CreateSession(spin, serverMAC)
+					if err != nil {
+						break
+					}
+					sm.RemoveSession(t.ID)
+				}
+				c.S.SkipMax = quantum
+				c.S.Probe("session_id_counter_wrapped")
+			}
 		case "auth":
 			s := sm.GetSession(x.id)
 			if x.stage != 1 || !up(x) || s == nil {
@@ -539,7 +567,31 @@ func c16RunTeardown(c *sim.Ctx) {
 			} else {
 				t1 := c.S.Spawn("end", nil, func() { call(x, p1, cause) })
 				t2 := c.S.Spawn("end", nil, func() { call(x, p2, cause) })
+				var fresh *pppoe.Session
+				if cs.Knob("idwrap", 0) == 1 {
+					// a new client connects while the old session is being ended
+					t3 := c.S.Spawn("newcomer", nil, func() {
+						// ... as soon as the old session has left the table (its id is free again)
+						deadline := c.S.Now() + 30*time.Second
+						c.S.WaitUntil(func() bool { return sm.GetSession(x.id) == nil || c.S.Now() >= deadline })
+						fresh, _ = sm.CreateSession(net.HardwareAddr{0x02, 0xdd, 0, 0, 3, 1}, serverMAC)
+					})
+					c.S.Join(t3)
+				}
 				c.S.Join(t1, t2)
+				if fresh != nil {
+					settle()
+					if fresh.ID == x.id {
+						c.S.Probe("session_id_reused_during_termination")
+					}
+					if a := acct[fresh.SessionID]; a != nil && a.stops > 0 {
+						c.Fail("acct", "pppoe-teardown/newcomer-stopped/"+label, "a session created while session %d was being ended (id reused: %v) got %d Accounting-Stop although nobody ended it", x.id, fresh.ID == x.id, a.stops)
+					}
+					if sm.GetSession(fresh.ID) != fresh {
+						c.Fail("not-disturbed", "pppoe-teardown/newcomer-removed/"+label, "a session created while session %d was being ended (id reused: %v) is gone from the session table although nobody ended it", x.id, fresh.ID == x.id)
+					}
+					sm.RemoveSession(fresh.ID)
+				}
 			}
 			settle()
 			mark(x, p1, label, label)
